@@ -48,6 +48,14 @@ def main(argv):
     atexit.register(lambda: (os.chdir("/"), shutil.rmtree(cwd, ignore_errors=True)))
     prop = load_prop(cmd)
     if a.replay:
+        import json
+        with open(a.replay) as f:
+            need_opt = bool(json.load(f).get("python_optimize"))
+        if need_opt and not sys.flags.optimize:
+            # the violation was found in the pass that runs the code under test with assertions disabled
+            env2 = dict(os.environ, PYTHONOPTIMIZE="1")
+            os.execve(sys.executable, [sys.executable, os.path.join(core.VERIF_DIR, "check"), cmd, "--replay", a.replay],
+                      env2)
         return core.replay(prop, a.replay)
     seed = a.seed
     if seed is None:
@@ -72,8 +80,28 @@ def main(argv):
     stray = sorted(os.listdir(cwd))
     if stray:
         total["infra"].append("the code under test created real files outside the simulated medium: %s" % stray[:5])
+    # second pass with assertions disabled (python -O): a configuration users do run; only for properties
+    # that ask for it, never recursively
+    sub_rc = 0
+    opt_runs = getattr(prop, "OPTIMIZED_PASS", {}).get(a.tier) if not a.runs else None
+    if opt_runs and not sys.flags.optimize and not os.environ.get("VERIF_SUBPASS"):
+        import subprocess
+        env2 = dict(os.environ, PYTHONOPTIMIZE="1", VERIF_SUBPASS="1", VERIF_NO_EVIDENCE="1")
+        r = subprocess.run([sys.executable, os.path.join(core.VERIF_DIR, "check"), cmd, "--tier", a.tier, "--runs",
+                            str(opt_runs), "--seed", str(seed + 1), "--no-evidence", "--workers", str(a.workers)],
+                           capture_output=True, text=True, env=env2, timeout=3600)
+        sub_rc = r.returncode
+        for ln in r.stdout.splitlines():
+            if ln.startswith(("violation:", "  ", "VIOLATION", "KNOWN-FINDING", "INFRA")):
+                print(("[python -O pass] " if not ln.startswith(("VIOLATION", "KNOWN-FINDING")) else "") + ln)
+        total["probes"]["runs-with-assertions-disabled"] += opt_runs
+        total["fired"]["python-O-pass"] += 1
+        if sub_rc == 2:
+            total["infra"].append("python -O pass ended with an infrastructure error: " + r.stdout[-300:])
     write_ev = not a.no_evidence and os.path.realpath(core.REPO) == "/repo"
     rc = core.finish(prop, a.tier, seed, total, wall, a.workers, write_evidence=write_ev)
+    if sub_rc == 1:
+        rc = 1
     print("%s: %d runs (%d evaluations, %d distinct non-trivial) in %.1fs; faults fired: %s; exit %d"
           % (prop.ID, total["runs"], total["evals"], len(total["nt_digests"]), wall,
              dict(total["fired"]), rc))
